@@ -102,11 +102,11 @@ func buildAPICalls(seed int64) []apiCall {
 		files[name] = mustEncode(imgs[im], &oo)
 		calls = append(calls, apiCall{"Encode:" + name, func() (string, error) {
 			o2 := o
-			var buf bytes.Buffer
+			var buf yieldWriter
 			if err := webp.Encode(&buf, imgs[im], &o2); err != nil {
 				return "", err
 			}
-			return fmt.Sprintf("%x", hashBytes(buf.Bytes())), nil
+			return fmt.Sprintf("%x", hashBytes(buf.b)), nil
 		}})
 	}
 	addEnc("lossy-33x17-m4", "33x17", webp.EncoderOptions{Quality: 60, Method: 4})
@@ -120,6 +120,19 @@ func buildAPICalls(seed int64) []apiCall {
 	addEnc("lossless-pal", "pal-20x20", webp.EncoderOptions{Lossless: true, Quality: 90, Method: 6})
 	addEnc("lossless-260x200", "260x200", webp.EncoderOptions{Lossless: true, Quality: 50, Method: 3})
 	addEnc("lossless-alpha-64x80", "64x80-alpha", webp.EncoderOptions{Lossless: true, Quality: 75, Method: 4, Exact: true})
+	// extended-container output (metadata, alpha) with call-specific blobs: the writer yields inside Write, so
+	// several Encode calls are between "file assembled" and "file written" at the same time
+	blob := func(tag byte, n int) []byte {
+		b := make([]byte, n)
+		for i := range b {
+			b[i] = tag ^ byte(i*7)
+		}
+		return b
+	}
+	addEnc("lossy-33x17-exif", "33x17", webp.EncoderOptions{Quality: 60, Method: 2, EXIF: blob(0x11, 300)})
+	addEnc("lossy-48x32-icc-xmp", "48x32", webp.EncoderOptions{Quality: 60, Method: 2, ICC: blob(0x22, 180), XMP: blob(0x33, 121)})
+	addEnc("lossless-33x17-exif", "33x17", webp.EncoderOptions{Lossless: true, Quality: 30, Method: 1, EXIF: blob(0x44, 300)})
+	addEnc("lossless-pal-icc-exif-xmp", "pal-20x20", webp.EncoderOptions{Lossless: true, Quality: 30, Method: 1, ICC: blob(0x55, 64), EXIF: blob(0x66, 65), XMP: blob(0x77, 66)})
 	for name, f := range files {
 		f := f
 		calls = append(calls, apiCall{"Decode:" + name, func() (string, error) {
@@ -192,6 +205,25 @@ func buildAPICalls(seed int64) []apiCall {
 		return fmt.Sprintf("%x/%d", hashBytes(buf.Bytes()), d.NumFrames()), nil
 	}})
 	return calls
+}
+
+// yieldWriter is an in-memory io.Writer that gives up the processor inside Write (as a pipe or a socket would while
+// it blocks): it widens the window in which another goroutine runs while this call's output is still being written.
+type yieldWriter struct{ b []byte }
+
+func (w *yieldWriter) Write(p []byte) (int, error) {
+	n := len(p)
+	for len(p) > 0 {
+		k := 96
+		if k > len(p) {
+			k = len(p)
+		}
+		runtime.Gosched()
+		w.b = append(w.b, p[:k]...)
+		p = p[k:]
+	}
+	runtime.Gosched()
+	return n, nil
 }
 
 // runConcurrentPrograms runs k goroutines x sequences of calls and compares every result with the solo result.
